@@ -53,7 +53,7 @@ def run(pid, tier):
         # (classes, maximal length, concrete instantiations per class string): all classes to a short length, the
         # separators that carry the structure of the rules to a longer one
         plans = [(ALL, 3, 3), ('{":", "#", "*", "a", "_", " "}', 5, 1), ('{":", "#", "*", "a"}', 6, 1)] if tier == "quick" else \
-                [(ALL, 5, 3), ('{":", "#", "*", "@", "a", "_", " "}', 6, 2), ('{":", "#", "*", "a"}', 8, 1)]
+                [(ALL, 5, 2), ('{":", "#", "*", "@", "a", "_", " "}', 6, 1), ('{":", "#", "*", "a"}', 8, 1)]
         maxlen = plans[0][1]
         variants = plans[0][2]
         bound = run_tlc("Rules", CFG % {"mode": "Bound", "maxlen": maxlen, "classes": ALL, "inv": "BoundOK"}, sc, cache=True, timeout=3000, xss="512m")
